@@ -1167,12 +1167,45 @@ impl Runner {
                 }
             }
         }
-        let end = if alive { end } else { End::Drop };
+        // a caller that goes on after an operation of the transaction reported an error: every third such
+        // transaction is committed all the same (the commit must then be refused, never acknowledged)
+        let insist = !alive && hop % 3 == 0;
+        let end = if alive { end } else if insist { End::Commit } else { End::Drop };
         match end {
             End::Commit => {
+                // every fourth commit has a second writer queued behind it: begin_write() on another thread, blocked
+                // on the write slot while this transaction is live; if this commit fails, the queued call must be
+                // refused like any later write attempt (it is recorded as a begin_write issued after the commit)
+                let queued = hop % 4 == 1;
                 let idx = self.apis.len() as u32;
                 self.be.set_api(idx);
-                let r = catch(move || txn.commit());
+                let mut queued_res: Option<Result<Result<(), String>, String>> = None;
+                let mut queued_tid = 0u64;
+                let r = if queued {
+                    let db = self.db.as_ref().unwrap();
+                    std::thread::scope(|sc| {
+                        let h = sc.spawn(move || {
+                            let tid = my_tid();
+                            let r = catch(|| match db.begin_write() {
+                                Ok(t) => {
+                                    let _ = t.abort();
+                                    Ok(())
+                                }
+                                Err(e) => Err(err_string(&e)),
+                            });
+                            (tid, r)
+                        });
+                        // give the second writer time to reach the wait on the write slot
+                        std::thread::sleep(std::time::Duration::from_millis(3));
+                        let r = catch(move || txn.commit());
+                        let (tid, qr) = h.join().unwrap_or_else(|_| (0, Err("queued begin_write thread panicked".into())));
+                        queued_tid = tid;
+                        queued_res = Some(qr);
+                        r
+                    })
+                } else {
+                    catch(move || txn.commit())
+                };
                 self.be.set_api(u32::MAX);
                 let res = match r {
                     Ok(Ok(())) => {
@@ -1188,17 +1221,42 @@ impl Runner {
                     }
                     Ok(Err(e)) => {
                         self.saw_failure = true;
-                        self.failed_commits.push((hop, staged));
+                        if alive {
+                            self.failed_commits.push((hop, staged));
+                        }
                         ApiRes::Err(err_string(&e))
                     }
                     Err(mut p) => {
                         self.saw_failure = true;
-                        self.failed_commits.push((hop, staged));
+                        if alive {
+                            self.failed_commits.push((hop, staged));
+                        }
                         p.truncate(200);
                         ApiRes::Panic(p)
                     }
                 };
                 self.apis.push(ApiRec { idx, name: "commit", res, hop });
+                if let Some(q) = queued_res {
+                    let res = match q {
+                        Ok(Ok(())) => ApiRes::Ok,
+                        Ok(Err(e)) => ApiRes::Err(e),
+                        Err(mut p) => {
+                            p.truncate(200);
+                            ApiRes::Panic(p)
+                        }
+                    };
+                    if res != ApiRes::Ok {
+                        self.saw_failure = true;
+                    }
+                    let bi = self.apis.len() as u32;
+                    self.apis.push(ApiRec { idx: bi, name: "begin_write", res, hop });
+                    // backend calls made by the queued writer's thread belong to ITS call, not to the commit
+                    for e in self.be.lock().events.iter_mut() {
+                        if e.tid == queued_tid && queued_tid != 0 {
+                            e.api = bi;
+                        }
+                    }
+                }
             }
             End::Abort => {
                 self.api("abort", move || txn.abort());
